@@ -511,6 +511,51 @@ theorem form_call (s : Sig) (types : List Ty) (cb : Nat) (beh : CbBehaviour) (w 
   · intro h
     simp [subgraphCallSig, effective, h, subgraphCall, CbBehaviour.callable, World.count]
 
+open CallForm in
+/-- The callbacks of a constructor call as `subgraph` sees them, given the signature of each (`none`: the
+    harness' `*args` default) and the number of arguments each will be called with. -/
+def withSigs (sigs : String → Option Sig) (ns : String → Nat) (cbs : Callbacks) : Callbacks :=
+  fun nm => ((cbs nm).1, match sigs nm with
+    | some s => effective s (ns nm) (cbs nm).2
+    | none => (cbs nm).2)
+
+open CallForm in
+/-- **Forms at the constructor.** If Python's call accepts every callback's signature, the constructor
+    behaves exactly as for plain callbacks — every `args_prescribed_*`, `called_once`, `out_count`
+    statement carries over verbatim, whatever the callable's form. -/
+theorem form_construct_accepted (spec : CtorSpec) (env : Env) (cbs : Callbacks) (w : World)
+    (sigs : String → Option Sig) (ns : String → Nat)
+    (hacc : ∀ nm s, sigs nm = some s → accepts s (ns nm) = true) :
+    construct spec env (withSigs sigs ns cbs) w = construct spec env cbs w := by
+  have : withSigs sigs ns cbs = cbs := by
+    funext nm
+    unfold withSigs
+    cases h : sigs nm with
+    | none => rfl
+    | some s => simp [effective, hacc nm s h]
+  rw [this]
+
+open CallForm in
+/-- If the type expressions evaluate, every callback returns Vars, and Python's call rejects the
+    signature of at least one of them, the constructor raises TypeError. -/
+theorem form_construct_rejected (spec : CtorSpec) (env : Env) (cbs : Callbacks) (w : World)
+    (sigs : String → Option Sig) (ns : String → Nat)
+    (hev : ∀ p ∈ spec.subgraphs, ∃ ts, evalList env p.2 = .ok ts)
+    (hgood : ∀ p ∈ spec.subgraphs, (cbs p.1).2.good = true)
+    (hex : ∃ p ∈ spec.subgraphs, ∃ s, sigs p.1 = some s ∧ accepts s (ns p.1) = false) :
+    (construct spec env (withSigs sigs ns cbs) w).1 = .error .typeError := by
+  apply bad_callbacks_typeerror spec env _ w hev
+  · intro p hp
+    unfold withSigs
+    cases h : sigs p.1 with
+    | none => exact Or.inl (hgood p hp)
+    | some s =>
+      cases ha : accepts s (ns p.1) with
+      | true => left; simpa [effective, ha] using hgood p hp
+      | false => right; simp [effective, ha, CbBehaviour.bad]
+  · obtain ⟨p, hp, s, hs, ha⟩ := hex
+    exact ⟨p, hp, by simp [withSigs, hs, effective, ha, CbBehaviour.bad]⟩
+
 /-! ## Nested control flow
 
 A callback may itself call control-flow constructors (with callbacks that do so again, …). `Tree` /
